@@ -7,8 +7,6 @@ from vlib import render as RR
 
 ID = "C11"
 PROP_FILE = "Props/C11.v"
-THEOREMS = ["C11_capture", "C11_display_default", "C11_roundtrip", "C11_transparent_display", "C11_transparent_as_ref",
-            "C11_transparent_into_static", "C11_nonvacuous"]
 RULE = ("definitions: enums with a default variant (tuple / single named field; inner String, Box<str>, a user type with From<&str>; "
         "declared first, in the middle, last; with or without spellings of its own) and/or transparent variants (tuple / named; inner "
         "String, &'static str, user type, integers for Display) next to ordinary variants, NonOverlap by the model's predicate; "
